@@ -166,23 +166,59 @@ class Run:
                 w['actions'].append(('set', NAMES[rng.randint(mx + 1, 3)], rng.random() < 0.2))
         if 'cb_unwatch' in self.feats and rng.random() < 0.12:
             w['actions'].append(('unwatch_self',) if rng.random() < 0.5 else ('unwatch_other',))
-        fn = self.make_cb(w)
-        if mode == 'args':
-            w['handle'] = self.o.param.watch(fn, list(names), what=what, onlychanged=w['onlychanged'], queued=w['queued'],
-                                             precedence=w['precedence'])
-        else:
-            w['handle'] = self.o.param.watch_values(fn, list(names), what=what, onlychanged=w['onlychanged'],
-                                                    queued=w['queued'], precedence=w['precedence'])
+        grp = [w]
+        fn = self.make_cb(grp)
+
+        def register(wd):
+            if mode == 'args':
+                wd['handle'] = self.o.param.watch(fn, list(names), what=what, onlychanged=wd['onlychanged'], queued=wd['queued'],
+                                                  precedence=wd['precedence'])
+            else:
+                wd['handle'] = self.o.param.watch_values(fn, list(names), what=what, onlychanged=wd['onlychanged'],
+                                                         queued=wd['queued'], precedence=wd['precedence'])
+        register(w)
         self.reg.append(w)
+        if 'twins' in self.feats and not w['actions'] and rng.random() < 0.3:
+            # the same callback subscribed a second time with identical settings: two distinct watchers that compare
+            # equal; each of them must be called (the callback cannot tell them apart, the monitor tries both)
+            w2 = dict(w, id=len(self.reg), regidx=self.regidx, actions=[], calls=0)
+            self.regidx += 1
+            grp.append(w2)
+            register(w2)
+            self.reg.append(w2)
+            self.stats['twin_watchers'] = self.stats.get('twin_watchers', 0) + 1
         return w
 
-    def make_cb(self, w):
+    def pick_member(self, grp, evs):
+        """Which of several equal watchers sharing one callback is this call for?  The one still expected by the
+        innermost direct assignment, else the one with a matching owed record, else the first live one."""
+        if len(grp) == 1:
+            return grp[0]
+        fr = self.opstack[-1] if self.opstack else None
+        if fr and len(evs) == 1 and evs[0][0] == fr['key'] and evs[0][2] is fr['value']:
+            for m in grp:
+                if any(x['w'] is m and x['done'] == 0 for x in fr['exp']):
+                    return m
+        live = [m for m in grp if m['live']] or grp
+        for m in live + [m for m in grp if not m['live']]:
+            # (a twin unwatched while it had owed events is still called for that flush: rule 6)
+            if self.has_matching_rec(m, evs):
+                return m
+        for m in live + [m for m in grp if not m['live']]:
+            if self.ledger.get(m['id']):
+                return m
+        return live[0]
+
+    def make_cb(self, grp):
+        w0 = grp[0]
+
         def cb(*events, **kw):
-            snap = {k: self.current(k) for k in self.model if k[1] == 'value' or k[1] == w['what']}
-            if w['mode'] == 'args':
+            snap = {k: self.current(k) for k in self.model if k[1] == 'value' or k[1] == w0['what']}
+            if w0['mode'] == 'args':
                 evs = [((e.name, e.what), e.old, e.new, e.type, e.obj, e.cls) for e in events]
             else:
                 evs = [((k, 'value'), None, v, None, None, None) for k, v in kw.items()]
+            w = self.pick_member(grp, evs)
             kind = self.on_delivery(w, evs, snap)
             w['calls'] += 1
             self.cbstack.append((w, kind))
@@ -631,6 +667,8 @@ class Run:
             for n in op[1]:
                 key = (n, 'value')
                 self.op_hist.setdefault(key, []).append(self.model[key])     # a trigger re-announces the current object
+                if self.batched():
+                    self.batched_hist.setdefault(key, []).append(self.model[key])
                 for w in self.watchers_of(key):
                     self.win_must[(w['id'], key)] = self.win_must.get((w['id'], key), 0) + 1
                     self.open_rec(w).add(key, self.model[key], 'must', True)
